@@ -341,3 +341,18 @@ def run(index, rep, tier):
             rep.check(ok, "R02.9", pa.qualname, "attribute values escaped with %s" % sorted(names - {"_safe_str", "str"}), fn_where(pa, r), "_protect_attr escapes with an XML escaper",
                       "nexmlwriter._protect_attr builds attribute values with %s: that is JSON / Python quoting - `&`, `<` and `\"` inside a label make the document ill-formed, and a backslash, a tab or a non-ASCII letter is written as a backslash escape that the XML reader hands back literally (`caf\\u00e9`), so such labels do not survive the NeXML round trip" % sorted(names - {"_safe_str", "str"}))
         rep.floor("R02.9", "attribute values routed through _protect_attr", 6, len(users))
+
+    # ---- R02.10 an absent length stays absent
+    with rep.section("R02.10"):
+        rep.rule("R02.10", "an absent edge length stays absent in NeXML: the writer leaves the length attribute out for None, so the reader's value for an <edge> without that attribute must be None (only the root edge may be normalised to 0)")
+        wfi = index.function(XW + "._write_edge") if False else index.function("dendropy.dataio.nexmlwriter.NexmlWriter._write_edge")
+        lw = [t for t in cfg_of(wfi).nodes if t.kind == "test" and isinstance(t.ast, ast.Compare) and norm(t.ast.left).endswith(".length") and is_none(t.ast.comparators[0])]
+        if not lw:
+            raise AnalysisError("R02.10: the writer's `length is not None` guard was not recognised")
+        pe = index.function("dendropy.dataio.nexmlreader._NexmlTreeParser._parse_edge_info")
+        gets = [c for c in calls_in(pe.node) if call_name(c) == "get" and c.args and isinstance(c.args[0], ast.Constant) and c.args[0].value == "length"]
+        if len(gets) != 1:
+            raise AnalysisError("R02.10: the reader's lookup of the length attribute was not recognised")
+        d = gets[0].args[1] if len(gets[0].args) > 1 else None
+        rep.check(d is None or is_none(d), "R02.10", pe.qualname, "missing length attribute read as %s" % (norm(d) if d is not None else None), fn_where(pe, gets[0]), "an <edge> without a length attribute gets length None",
+                  "_NexmlTreeParser._parse_edge_info reads a missing length attribute as `%s`: the writer omits the attribute exactly when the length is None, so every edge without a length comes back with length %s - a tree without branch lengths returns as a tree with all-zero branch lengths (only the root edge may be normalised that way)" % (norm(d) if d is not None else None, norm(d) if d is not None else None))
